@@ -14,7 +14,7 @@
 From Coq Require Import String.
 From Coq Require Import NArith List Bool.
 From DI Require Import Result PyStr Codec Deb822 Deb822Facts BlankFacts Debcon Copyright Grammar822 Grammar822Facts
-  Grammar822Blank Dep5Facts WordFacts ConserveFacts MarkerFacts.
+  Grammar822Blank Dep5Facts WordFacts ConserveFacts MarkerFacts Renumber.
 Import ListNotations.
 Open Scope N_scope.
 
@@ -109,3 +109,19 @@ Example C12_nonvacuous :
   /\ rmap (map (map (fun e => cwords (field_text e)))) (groups (doc_text d)) =
      rmap (map (map (fun e => cwords (field_text e)))) (groups (doc_text d')).
 Proof. vm_compute. split; reflexivity. Qed.
+
+(* the look-ahead that decides whether a blank line is absorbed reads the NEXT line of the list it was
+   handed, wherever the numbers of those lines start: under any renumbering g the same lines are
+   absorbed, and the groups are those of the original numbering, renumbered *)
+Theorem C12_recovery_does_not_read_numbers : forall g lines,
+  groups_from_lines (map (renum g) lines) = rmap (renum_groups g) (groups_from_lines lines).
+Proof. exact groups_from_lines_renum. Qed.
+Print Assumptions C12_recovery_does_not_read_numbers.
+
+Example C12_recovery_numbered_from_1001 :
+  groups_from_lines (number_from 1001 (text_lines (lit "License: x
+ a
+
+ b")))
+  = Ok [[mkField (lit "license") [mkLine 1001 (lit "x"); mkLine 1002 (lit " a"); mkLine 1003 []; mkLine 1004 (lit " b")]]].
+Proof. vm_compute. reflexivity. Qed.
